@@ -7,7 +7,7 @@
       `json.Unmarshal`s) and evaluate `a.Equals(b)`.
 
     goequals ?info <schemas-id> <pkg> <object> <json1-sexp> <json2-sexp>
-        → eq=<ab>,<ba> refl=<aa>,<bb> ts=<a>,<b> nz=<a>,<b> enc=<0|1> encnil=<0|1> wt=<a>,<b>
+        → eq=<ab>,<ba> refl=<aa>,<bb> ts=<a>,<b> nz=<a>,<b> ua=<0|1> enc=<0|1> encnil=<0|1> wt=<a>,<b>
       the verdicts in both directions plus the decidable hypotheses of the `_partial` theorems
       (`timesShared`, `mapsNonZero`), exact equality of the encodings and equality of the encodings
       up to nil/empty collections; used to classify law failures (`excludedBy`).
@@ -39,14 +39,16 @@ def goequalsCore (info : Bool) (args : List String) : IO String := do
           | .unsup w => return "unsup " ++ w
           | .fuel => return "fuel"
           | .ok (a, b) =>
-            let wa := wt semFuel ss t a
-            let wb := wt semFuel ss t b
+            -- Equals runs with one more unit of fuel than the decode (see `C13_decode_wt`)
+            let fe := semFuel + 1
+            let wa := wt fe ss t a
+            let wb := wt fe ss t b
             if !info then
               if !(wa && wb) then return "unsup value outside the modelled fragment"
-              return toString (goEquals semFuel ss t a b)
+              return toString (goEquals fe ss t a b)
             else
-              let e := fun x y => bit (goEquals semFuel ss t x y)
-              return s!"eq={e a b},{e b a} refl={e a a},{e b b} ts={bit (timesShared a)},{bit (timesShared b)} nz={bit (mapsNonZero semFuel ss t a)},{bit (mapsNonZero semFuel ss t b)} enc={bit (Json.beq a.goEncode b.goEncode)} encnil={bit (encSameModNil a b)} wt={bit wa},{bit wb}"
+              let e := fun x y => bit (goEquals fe ss t x y)
+              return s!"eq={e a b},{e b a} refl={e a a},{e b b} ts={bit (timesShared a)},{bit (timesShared b)} nz={bit (mapsNonZero fe ss t a)},{bit (mapsNonZero fe ss t b)} ua={bit (unionsAligned fe ss t a b)} enc={bit (Json.beq a.goEncode b.goEncode)} encnil={bit (encSameModNil a b)} wt={bit wa},{bit wb}"
         | _, _ => return "bad-json"
       | _ => return "bad-json"
   | _ => return "bad-request"
